@@ -50,6 +50,10 @@ pub enum Policy {
     FailWriteAt(usize, Fault),
     /// fail the first flush
     FailFlush(ErrorKind),
+    /// at write call `at`, return Interrupted `n` times in a row (not logged individually), then accept `cap` bytes per call
+    InterruptStorm { at: usize, n: u64, cap: usize },
+    /// every write call first drives ANOTHER fst builder on the same thread (a journaling/indexing sink), then accepts `cap` bytes
+    Reentrant { cap: usize },
 }
 
 pub struct Inner {
@@ -63,6 +67,7 @@ pub struct Inner {
     pub flushed_after_last_write: bool,
     /// number of bytes the sink held at its last successful flush (what a commit-on-flush sink would keep)
     pub committed: usize,
+    pub storm_left: Option<u64>,
 }
 
 #[derive(Clone)]
@@ -71,7 +76,7 @@ pub struct Sink(pub Rc<RefCell<Inner>>);
 impl Sink {
     pub fn new(policy: Policy) -> Sink {
         let seed = if let Policy::Random(s) = policy { s } else { 0 };
-        Sink(Rc::new(RefCell::new(Inner { data: vec![], log: vec![], policy, wcalls: 0, phase: 0, rng: Rng::new(seed, 0x51), failed: false, flushed_after_last_write: true, committed: 0 })))
+        Sink(Rc::new(RefCell::new(Inner { data: vec![], log: vec![], policy, wcalls: 0, phase: 0, rng: Rng::new(seed, 0x51), failed: false, flushed_after_last_write: true, committed: 0, storm_left: None })))
     }
     pub fn set_phase(&self, p: usize) {
         self.0.borrow_mut().phase = p;
@@ -97,6 +102,38 @@ impl Sink {
 
 impl Write for Sink {
     fn write(&mut self, buf: &[u8]) -> io::Result<usize> {
+        // policies that must not hold the RefCell while they work
+        let pol0 = self.0.borrow().policy.clone();
+        if let Policy::InterruptStorm { at, n, cap } = pol0 {
+            let mut s = self.0.borrow_mut();
+            if s.wcalls >= at {
+                let left = s.storm_left.get_or_insert(n);
+                if *left > 0 {
+                    *left -= 1;
+                    return Err(io::Error::new(ErrorKind::Interrupted, "injected interrupt storm"));
+                }
+            }
+            s.wcalls += 1;
+            let k = buf.len().min(cap.max(1));
+            s.data.extend_from_slice(&buf[..k]);
+            s.flushed_after_last_write = false;
+            return Ok(k);
+        }
+        if let Policy::Reentrant { cap } = pol0 {
+            // build a small FST of our own while the outer builder is in the middle of a write
+            let mut inner = fst::raw::Builder::memory();
+            let n = self.0.borrow().wcalls;
+            for i in 0..3u8 {
+                let _ = inner.insert([b'j', i, (n % 251) as u8], n as u64 + i as u64);
+            }
+            let _ = inner.into_inner();
+            let mut s = self.0.borrow_mut();
+            s.wcalls += 1;
+            let k = buf.len().min(cap.max(1));
+            s.data.extend_from_slice(&buf[..k]);
+            s.flushed_after_last_write = false;
+            return Ok(k);
+        }
         let mut s = self.0.borrow_mut();
         let call = s.wcalls;
         s.wcalls += 1;
@@ -147,6 +184,7 @@ impl Write for Sink {
                 }
             }
             Policy::FailFlush(_) => Outcome::Accepted(offered),
+            Policy::InterruptStorm { .. } | Policy::Reentrant { .. } => unreachable!(),
         };
         s.log.push(Event { write: true, offered, outcome: outcome.clone(), phase, offset });
         match outcome {
